@@ -63,6 +63,10 @@ void register_b_rect()
     rect_assoc<3, 1, 1, 3>(make_ops(all_over<3, 1>(pm1)), make_ops(all_over<1, 1>(range(-2, 2))), make_ops(all_over<1, 3>(pm1)));
     rect_assoc<2, 4, 3, 2>(make_ops(structured<2, 4>(1)), make_ops(structured<4, 3>(1)), make_ops(structured<3, 2>(1)));
   });
+  vrt::shard("write_access/int/cells", [] {
+    // int writes through at_r_c / at_r / get_unsafe / mRC hit exactly the addressed cell (all 16 shapes)
+    static_for_rc<4, 4>([](auto ri, auto ci) { write_access_case<decltype(ri)::value + 1, decltype(ci)::value + 1>(); });
+  });
   vrt::shard("tall/column_law", [] {
     tall_column_law<3, 2>(all_over<3, 2>(pm1), all_vectors<2>(-2, 2));
     tall_column_law<4, 1>(all_over<4, 1>(pm1), all_vectors<1>(-3, 3));
